@@ -29,6 +29,10 @@ enum Op {
     Read { th: usize },
     /// one tool_task_output_delta through the real TaskEmitter::emit of THE task of the case
     TaskEmit { stderr: bool },
+    /// a whole run on a fresh session of the case's SessionEngine (ripd::verif::run_session_inline: what
+    /// spawn_session hands to the executor), stub input or an `ls` tool envelope; `link` = thread ordinal
+    /// of a linked run (POST /threads/{id}/messages): the run closes with append_run_ended on that thread
+    SessRun { tool: bool, link: Option<usize> },
 }
 
 #[derive(Clone, Debug, PartialEq)]
@@ -60,6 +64,14 @@ enum M {
     TChoose,
     TAppend,
     TUnlock,
+    SEmit,
+}
+
+/// the frames ONE run of the stub input / of the `ls` tool envelope writes (measured once per harness
+/// run on an un-raced session; the model's session actor emits exactly these kinds)
+static RUN_CODES: std::sync::OnceLock<[Vec<u64>; 2]> = std::sync::OnceLock::new();
+fn run_codes(tool: bool) -> Vec<u64> {
+    RUN_CODES.get().map(|c| c[tool as usize].clone()).unwrap_or_default()
 }
 
 fn locked_append() -> Vec<M> {
@@ -75,6 +87,14 @@ fn prog(op: &Op) -> Vec<M> {
         Op::Branch { .. } | Op::Handoff { .. } => [vec![M::Target, M::Read], lineage()].concat(),
         Op::Read { .. } => vec![M::Target, M::Read],
         Op::TaskEmit { .. } => vec![M::TLock, M::TChoose, M::Bcast, M::TAppend, M::TUnlock],
+        Op::SessRun { tool, link } => {
+            let mut v = vec![M::SEmit; run_codes(*tool).len()];
+            if link.is_some() {
+                v.push(M::Target);
+                v.extend(locked_append());
+            }
+            v
+        }
     }
 }
 
@@ -86,6 +106,20 @@ fn op_coq(op: &Op) -> String {
         Op::Handoff { th } => format!("OHandoff {}", coq_nat(*th as u64)),
         Op::Read { th } => format!("ORead {}", coq_nat(*th as u64)),
         Op::TaskEmit { .. } => "OTaskEmit EToolTaskOutputDelta".into(),
+        Op::SessRun { .. } => "ORead 0%nat".into(), // never printed: mixed cases go through mop_coq
+    }
+}
+fn mop_coq(op: &Op) -> String {
+    match op {
+        Op::SessRun { tool, link } => format!(
+            "MRun [{}] {}",
+            run_codes(*tool).iter().map(|c| coq_etype(*c)).collect::<Vec<_>>().join("; "),
+            match link {
+                Some(th) => format!("(Some {})", coq_nat(*th as u64)),
+                None => "None".into(),
+            }
+        ),
+        o => format!("MOp ({})", op_coq(o)),
     }
 }
 fn setup_coq(s: &Setup) -> String {
@@ -156,7 +190,7 @@ fn do_setup(env: &mut Env, setup: &[Setup]) {
     }
 }
 
-fn do_op(store: &ContinuityStore, log_path: &std::path::Path, ids: &[String], op: &Op, tag: u64) {
+fn do_op(store: &ContinuityStore, log_path: &std::path::Path, ids: &[String], op: &Op, tag: u64, engine: Option<&Arc<ripd::SessionEngine>>) {
     match op {
         Op::Append { t, th } => {
             let _ = append_kind(store, &id_at(ids, *th), *t, tag);
@@ -182,6 +216,14 @@ fn do_op(store: &ContinuityStore, log_path: &std::path::Path, ids: &[String], op
             let _ = store.replay_events(&id_at(ids, *th));
         }
         Op::TaskEmit { .. } => {}
+        Op::SessRun { tool, link } => {
+            if let Some(engine) = engine {
+                let rt = tokio::runtime::Builder::new_current_thread().enable_all().build().unwrap();
+                let handle = engine.create_session();
+                let link = link.map(|th| ContinuityRunLink { continuity_id: id_at(ids, th), message_id: "m0".into(), actor_id: "user".into(), origin: "harness".into() });
+                rt.block_on(ripd::verif::run_session_inline(engine, handle, race_input(*tool, tag as u32), link));
+            }
+        }
     }
 }
 
@@ -278,14 +320,36 @@ struct Leaf {
 }
 
 fn coarse(p: &str) -> bool {
-    p.starts_with("cont.") || p == "start"
+    p.starts_with("cont.") || p == "start" || p == "sess.before_emit"
 }
 
 /// Runs setup sequentially, then the actors under the scheduler; `choose(decision index, width)`
 /// picks among the enabled actors at every real decision.
 fn run_leaf(setup: &[Setup], actors: &[Vec<Op>], choose: &mut dyn FnMut(usize, usize) -> usize) -> Leaf {
     let scratch = Scratch::new("c01");
-    let mut env = Env::open(scratch.path());
+    // a case with runs needs a SessionEngine: the store and the log are then the engine's own (such cases
+    // have no restart / fault in their set-up)
+    let with_runs = actors.iter().flatten().any(|o| matches!(o, Op::SessRun { .. }));
+    let engine_rt = if with_runs { Some(tokio::runtime::Builder::new_multi_thread().worker_threads(1).enable_all().build().unwrap()) } else { None };
+    let engine: Option<Arc<ripd::SessionEngine>> = engine_rt.as_ref().and_then(|rt| {
+        let _g = rt.enter();
+        let data_dir = scratch.path().join("data");
+        let ws = scratch.path().join("ws");
+        std::fs::create_dir_all(&data_dir).ok()?;
+        std::fs::create_dir_all(&ws).ok()?;
+        let _ = std::fs::write(ws.join("a.txt"), b"hello\n");
+        ripd::SessionEngine::new(data_dir, ws, None).ok().map(Arc::new)
+    });
+    let mut env = match &engine {
+        Some(e) => Env {
+            root: scratch.path().to_path_buf(),
+            data_dir: scratch.path().join("data"),
+            ws: scratch.path().join("ws"),
+            log: Arc::new(rip_log::EventLog::new(scratch.path().join("data").join("events.jsonl")).expect("event log")),
+            store: e.continuities(),
+        },
+        None => Env::open(scratch.path()),
+    };
     do_setup(&mut env, setup);
     let before = env.log_bytes();
     let ids = Arc::new(ids_of(&env));
@@ -303,9 +367,10 @@ fn run_leaf(setup: &[Setup], actors: &[Vec<Op>], choose: &mut dyn FnMut(usize, u
         let ids = ids.clone();
         let ops = ops.clone();
         let lp = env.log_path();
+        let engine = engine.clone();
         handles.push(sched.spawn(a, move || {
             for (k, op) in ops.iter().enumerate() {
-                do_op(&store, &lp, &ids, op, (a * 10 + k) as u64);
+                do_op(&store, &lp, &ids, op, (a * 10 + k) as u64, engine.as_ref());
                 rip_kernel::verif::point("cont.h_opdone");
             }
         }));
@@ -373,14 +438,18 @@ fn run_leaf(setup: &[Setup], actors: &[Vec<Op>], choose: &mut dyn FnMut(usize, u
     // ---- trace -> model schedule
     let mut pcs: Vec<Pc> = actors.iter().map(|ops| Pc::new(ops)).collect();
     let mut model_sched = vec![];
-    for (i, (a, _)) in trace.steps.iter().enumerate() {
+    for (i, (a, p)) in trace.steps.iter().enumerate() {
         let arrival = trace.steps[i + 1..].iter().find(|(b, _)| b == a).map(|(_, p)| *p).unwrap_or("done");
-        let n = pcs[*a].arrive(arrival);
+        // a run granted at sess.sent goes through EventLog::append: one emit of the model's session actor
+        let mut n = if *p == "sess.sent" { pcs[*a].through(|m| m == M::SEmit) } else { 0 };
+        n += pcs[*a].arrive(arrival);
         for _ in 0..n {
             model_sched.push(*a as u64);
         }
     }
     let inconclusive = trace.in_flight_timeouts > 0 || trace.deadlock;
+    drop(engine);
+    drop(engine_rt);
 
     // ---- independent oracle
     let after = env.log_bytes();
@@ -1150,6 +1219,29 @@ fn session_race(ctx: &mut Ctx, wsg: &mut CaseWriter, n: usize, stepped: bool, ro
     drop(rt);
 }
 
+/// the frame kinds one un-raced run of the stub input / the `ls` envelope writes
+fn calibrate_run(tool: bool) -> Vec<u64> {
+    let scratch = Scratch::new("c01k");
+    let data_dir = scratch.path().join("data");
+    let ws = scratch.path().join("ws");
+    std::fs::create_dir_all(&data_dir).unwrap();
+    std::fs::create_dir_all(&ws).unwrap();
+    let _ = std::fs::write(ws.join("a.txt"), b"hello\n");
+    let rt = tokio::runtime::Builder::new_current_thread().enable_all().build().unwrap();
+    let engine = {
+        let _g = rt.enter();
+        match ripd::SessionEngine::new(data_dir.clone(), ws, None) {
+            Ok(e) => Arc::new(e),
+            Err(_) => return vec![],
+        }
+    };
+    let handle = engine.create_session();
+    let sid = handle.session_id.clone();
+    rt.block_on(ripd::verif::run_session_inline(&engine, handle, race_input(tool, 0), None));
+    let hs = parse_log(&std::fs::read(data_dir.join("events.jsonl")).unwrap_or_default()).unwrap_or_default();
+    hs.iter().filter(|h| h.sid == sid).map(|h| h.code).collect()
+}
+
 /// executable class of an order violation (computed on the failing case)
 fn classify(setup: &[Setup], hs: &[Hdr], before_len: usize, after: &[u8]) -> String {
     // which stream is broken, and was that thread created during the concurrent phase?
@@ -1189,7 +1281,20 @@ struct Case {
     actors: Vec<Vec<Op>>,
 }
 impl Case {
+    fn is_mix(&self) -> bool {
+        self.actors.iter().flatten().any(|o| matches!(o, Op::SessRun { .. }))
+    }
     fn coq(&self, leaf: &Leaf) -> String {
+        if self.is_mix() {
+            return format!(
+                "{{| mx_setup := [KCap CapEnsureDefault 0%nat fact_ok{}{}]; mx_actors := [{}]; mx_sched := {}; mx_expect := {} |}}",
+                if self.setup.is_empty() { "" } else { "; " },
+                self.setup.iter().map(setup_coq).collect::<Vec<_>>().join("; "),
+                self.actors.iter().map(|ops| format!("[{}]", ops.iter().map(mop_coq).collect::<Vec<_>>().join("; "))).collect::<Vec<_>>().join("; "),
+                coq_list_n(&leaf.model_sched),
+                coq_list_n(&leaf.obs)
+            );
+        }
         if self.actors.iter().flatten().any(|o| matches!(o, Op::TaskEmit { .. })) {
             return format!(
                 "{{| c1_setup := []; c1_actors := [{}]; c1_sched := {}; c1_expect := {} |}}",
@@ -1216,6 +1321,7 @@ struct Ctx {
     deadline: std::time::Instant,
     res: RunResult,
     w: CaseWriter,
+    wmx: CaseWriter,
     distinct: Distinct,
     oracle_only: bool,
     leaves: u64,
@@ -1243,7 +1349,7 @@ impl Ctx {
             self.res.bump("inconclusive_not_compared");
             id_for_violation = -1;
         } else if !self.oracle_only {
-            let id = self.w.push(case.coq(leaf));
+            let id = if case.is_mix() { self.wmx.push(case.coq(leaf)) } else { self.w.push(case.coq(leaf)) };
             id_for_violation = id as i64;
             if self.res.case_index.len() < 3000 {
                 self.res.case_index.insert(id.to_string(), case.json(&leaf.choices));
@@ -1384,7 +1490,10 @@ fn main() {
     res.rule = "case = sequential setup history on the real ContinuityStore (messages, runs, branches, sidecar faults, restart) followed by 2-4 concurrent actors (locked appends of 7 kinds, post-to-newest-listed, branch, handoff, replay) run on OS threads under the controlled scheduler; one evaluation = one complete schedule (leaf); exhaustive = every interleaving of two one-call actors at the cont.* points; non-trivial = at least two real scheduling decisions; distinct by (setup, actors, decision list)".into();
     let w = CaseWriter::new(&a.out, "Model.Frames Model.Log Model.ContStore", "check_case_c01", "model_obs_c01", 40);
     let budget = if a.thorough() { 1200 } else { 300 };
-    let mut ctx = Ctx { deadline: std::time::Instant::now() + Duration::from_secs(budget), res, w, distinct: Distinct::default(), oracle_only: a.oracle_only(), leaves: 0 };
+    let wmx = CaseWriter::new(&a.out.join("mix"), "Model.Frames Model.Log Model.ContStore Model.SessGuard", "check_case_mix", "model_obs_mix", 40).with_base(2_000_000);
+    let _ = RUN_CODES.set([calibrate_run(false), calibrate_run(true)]);
+    let mut ctx = Ctx { deadline: std::time::Instant::now() + Duration::from_secs(budget), res, w, wmx, distinct: Distinct::default(), oracle_only: a.oracle_only(), leaves: 0 };
+    ctx.res.notes.push(format!("frames of one run (etype codes): stub {:?}, ls envelope {:?}", run_codes(false), run_codes(true)));
     let mut r = Rng::new(a.seed);
     let thorough = a.thorough();
 
@@ -1451,6 +1560,31 @@ fn main() {
         if !ctx.stop() {
             task_stress(&mut ctx, if thorough { 400 } else { 150 }, a.seed * 100 + k);
         }
+    }
+
+    // ---- runs next to store writers under the scheduler (compared with the model: check_case_mix)
+    let run = |tool: bool, link: Option<usize>| Op::SessRun { tool, link };
+    let mixes: Vec<(Vec<Setup>, Vec<Vec<Op>>, usize)> = vec![
+        (vec![], vec![vec![run(false, None)], vec![run(false, None)]], 40),
+        (vec![Setup::Msg { th: 0 }], vec![vec![run(false, Some(0))], vec![Op::Append { t: 4, th: 0 }]], 60),
+        (vec![Setup::Msg { th: 0 }], vec![vec![run(false, Some(0))], vec![run(true, Some(0))]], 60),
+        (vec![Setup::Msg { th: 0 }, Setup::Branch { th: 0 }], vec![vec![run(true, None)], vec![run(false, Some(1))], vec![Op::Branch { th: 0 }, Op::Append { t: 13, th: 1 }]], 60),
+    ];
+    for (setup, actors, cap) in mixes {
+        let case = Case { setup, actors };
+        exhaustive(&mut ctx, &case, if thorough { 3000 } else { cap }, "exhaustive_runs_and_store_writers");
+    }
+    for _ in 0..(if thorough { 600 } else { 40 }) {
+        let (setup, threads) = gen_setup(&mut r, false);
+        let na = r.range(2, 4) as usize;
+        let mut actors: Vec<Vec<Op>> = (0..na).map(|_| (0..r.range(1, 2)).map(|_| gen_op(&mut r, threads)).collect()).collect();
+        // at least one actor is a run (one run per actor: a session stream has one run-local counter)
+        let k = r.range(1, na as u64 - 1) as usize;
+        for a in actors.iter_mut().take(k) {
+            *a = vec![run(r.chance(1, 3), if r.chance(1, 2) { Some(r.below(threads as u64) as usize) } else { None })];
+        }
+        let case = Case { setup, actors };
+        random_leaf(&mut ctx, &case, &mut r, "random_runs_and_store_writers");
     }
 
     // ---- everything at once through the HTTP router
@@ -1525,9 +1659,10 @@ fn main() {
     }
 
     ctx.w.flush();
+    ctx.wmx.flush();
     wsg.flush();
     ctx.res.distinct_nontrivial = ctx.distinct.count();
-    ctx.res.case_files = ctx.w.files.iter().chain(wsg.files.iter()).map(|p| p.display().to_string()).collect();
+    ctx.res.case_files = ctx.w.files.iter().chain(ctx.wmx.files.iter()).chain(wsg.files.iter()).map(|p| p.display().to_string()).collect();
     ctx.res.write(&a.out);
     println!("c01: {} schedules, {} oracle violations", ctx.leaves, ctx.res.oracle_violations.len());
 }
